@@ -491,7 +491,7 @@ SUBS = [
 
 CLAIM = {
     "technique": "property-based testing against a reference dispatcher model; schedule-generated runs of pooled notifications under a deterministic scheduler",
-    "text": "Generated-input search over notification shapes, batch positions, method outcomes and dispatch modes; output compared with the reference model (no object for the entry) and the recorded invocation log (exactly once). Pooled notifications run under the deterministic scheduler: generated schedules, single-preemption sweeps, pools with a bounded queue under saturation, backlogs that arrive while the pool is not running. Client-side notification calls return None.",
+    "text": "Generated-input search over notification shapes, batch positions, method outcomes and dispatch modes; output compared with the reference model (no object for the entry) and the recorded invocation log (exactly once). Pooled notifications run under the deterministic scheduler: generated schedules, single-preemption sweeps (also with the next notification arriving at the very instant an idle worker's wait times out, either thread first), pools with a bounded queue under saturation, backlogs that arrive while the pool is not running. Client-side notification calls return None.",
     "note": "Trusts vlib/refmodel.py; the pooled part samples schedules (not exhaustive).",
     "design_ref": "DESIGN.md section 4, C04",
     "engine": "E1+E2",
